@@ -113,8 +113,18 @@ func reserve() (addr string, release func(), err error) {
 	return fmt.Sprintf("127.0.0.1:%d", in4.Port), func() { once.Do(func() { syscall.Close(fd) }) }, nil
 }
 
-func node(addr string) (*actor.Engine, *remote.Remote, string, error) {
+func node(addr string) (*actor.Engine, *remote.Remote, string, error) { return nodeCfg(addr, false) }
+
+func nodeCfg(addr string, useTLS bool) (*actor.Engine, *remote.Remote, string, error) {
 	var last error
+	cfg := remote.NewConfig()
+	if useTLS {
+		tc, err := sharedTLS()
+		if err != nil {
+			return nil, nil, "", fmt.Errorf("harness: TLS material: %v", err)
+		}
+		cfg = cfg.WithTLS(tc)
+	}
 	for try := 0; try < 5; try++ {
 		a := addr
 		if a == "" {
@@ -124,7 +134,7 @@ func node(addr string) (*actor.Engine, *remote.Remote, string, error) {
 				continue
 			}
 		}
-		r := remote.New(a, remote.NewConfig())
+		r := remote.New(a, cfg)
 		e, err := actor.NewEngine(actor.NewEngineConfig().WithRemote(r))
 		if err == nil {
 			return e, r, a, nil
@@ -145,9 +155,10 @@ type Step struct {
 }
 
 type FCase struct {
-	TB      int      `json:"tb"`      // targets on node B
-	TC      int      `json:"tc"`      // targets on node C (0 = no third node)
-	Scripts [][]Step `json:"scripts"` // one per sender goroutine on node A
+	TB      int      `json:"tb"`            // targets on node B
+	TC      int      `json:"tc"`            // targets on node C (0 = no third node)
+	Scripts [][]Step `json:"scripts"`       // one per sender goroutine on node A
+	TLS     bool     `json:"tls,omitempty"` // every node is configured WithTLS (mutual authentication)
 }
 
 type rec struct {
@@ -207,11 +218,14 @@ func runFlows(c FCase) (map[string]int, error) {
 		return nil, nil
 	}
 	feat := map[string]int{}
-	a, ra, addrA, err := node("")
+	if c.TLS {
+		feat["tls"]++
+	}
+	a, ra, addrA, err := nodeCfg("", c.TLS)
 	if err != nil {
 		return nil, err
 	}
-	b, rb, addrB, err := node("")
+	b, rb, addrB, err := nodeCfg("", c.TLS)
 	if err != nil {
 		return nil, err
 	}
@@ -219,7 +233,7 @@ func runFlows(c FCase) (map[string]int, error) {
 	remotes := []*remote.Remote{ra, rb}
 	addrs := []string{addrA, addrB}
 	if c.TC > 0 {
-		cc, rc, addrC, err := node("")
+		cc, rc, addrC, err := nodeCfg("", c.TLS)
 		if err != nil {
 			return nil, err
 		}
@@ -411,6 +425,7 @@ func genFlows(t *rapid.T) FCase {
 		}
 		c.Scripts = append(c.Scripts, sc)
 	}
+	c.TLS = rapid.IntRange(0, 3).Draw(t, "tls") == 0
 	return c
 }
 
